@@ -17,6 +17,9 @@ vh::use_jemalloc!();
 
 const BODY_OPS: &[&str] = &[
     "SET k a", "INCR k", "INCR s", "LPUSH l x", "GET k", "DEL k", "FOO bar", "GET", "MULTI", "WATCH k", "SET w z", "APPEND k b",
+    // conditional SETs (a run of SETs may be replayed through a batched path) and multi-key commands whose keys
+    // live on different shards - with 2 shards k is on shard 1 and k2 on shard 0 - (the replay must route them exactly like the standalone commands)
+    "SET k c NX", "SET k d GET", "MSET k 1 k2 2 w 3", "MGET k k2 w", "DEL k k2",
 ];
 const WATCH_TYPES: &[(&str, &[&str])] = &[
     ("missing", &[]),
@@ -570,7 +573,7 @@ fn main() {
         "two_transactions_on_one_connection_scenarios": chained,
         "executor_level_scenarios": ex_items.len(),
         "exhaustive": true,
-        "rule": "connection level: (all bodies of <=3 commands over 12 body ops incl. run-time failure, unknown command, wrong arity, nested MULTI, WATCH inside MULTI) x {EXEC, DISCARD}; and WATCH scenarios: 10 watched-key types (incl. two-slot hash/list/zset) x 16 writes by a second connection (incl. content-permuting writes) x 4 positions x small bodies (plus re-WATCH / UNWATCH / WATCH k w right before MULTI); and two transactions in a row on one connection (first: bodies <=2 over {SET, INCR, unknown command, wrong arity} x {EXEC, DISCARD} x {no WATCH, WATCH kept, WATCH broken by B}; second: bodies <=1 x the same three WATCH variants); every scenario is executed on the real handler (2 connections, one state, strictly sequential) and on a twin server that runs the queued commands without MULTI; executor level: same oracle on a bare CommandExecutor",
+        "rule": "connection level: (all bodies of <=3 commands over 17 body ops incl. conditional SETs, multi-key commands across shards, run-time failure, unknown command, wrong arity, nested MULTI, WATCH inside MULTI) x {EXEC, DISCARD}; and WATCH scenarios: 10 watched-key types (incl. two-slot hash/list/zset) x 16 writes by a second connection (incl. content-permuting writes) x 4 positions x small bodies (plus re-WATCH / UNWATCH / WATCH k w right before MULTI); and two transactions in a row on one connection (first: bodies <=2 over {SET, INCR, unknown command, wrong arity} x {EXEC, DISCARD} x {no WATCH, WATCH kept, WATCH broken by B}; second: bodies <=1 x the same three WATCH variants); every scenario is executed on the real handler (2 connections, one state, strictly sequential) and on a twin server that runs the queued commands without MULTI; executor level: same oracle on a bare CommandExecutor",
     });
     rep.finish(
         coverage,
